@@ -264,12 +264,17 @@ mod sx {
         "||x.com^$removeparam=ref",
         "@@||gh.com^$generichide",
         "gh.com##.own",
+        "||gh.com^$csp=d3",
+        "||gh.com/p^$csp=d4",
     ];
 
     #[derive(Clone, Copy, Debug, PartialEq)]
     pub enum Q {
         Check(usize),
         Csp,
+        /// get_csp_directives of two other pages with other answers
+        CspGh,
+        CspGhP,
         Cosmetic,
         /// url_cosmetic_resources of a page with the opposite generichide verdict
         CosmeticGh,
@@ -297,6 +302,8 @@ mod sx {
         match q {
             Q::Check(i) => format!("{:?}", Verdict::of(&e.check_network_request(&Request::new(URLS[i], "https://y.com/", if i >= 6 { "xmlhttprequest" } else { "script" }).unwrap()))),
             Q::Csp => format!("{:?}", csp_set(&e.get_csp_directives(&Request::new("https://x.com/", "https://x.com/", "document").unwrap()))),
+            Q::CspGh => format!("{:?}", csp_set(&e.get_csp_directives(&Request::new("https://gh.com/", "https://gh.com/", "document").unwrap()))),
+            Q::CspGhP => format!("{:?}", csp_set(&e.get_csp_directives(&Request::new("https://gh.com/p/", "https://gh.com/", "subdocument").unwrap()))),
             Q::Cosmetic => {
                 let r = e.url_cosmetic_resources("https://x.com/");
                 let hs: BTreeSet<_> = r.hide_selectors.into_iter().collect();
@@ -327,6 +334,7 @@ mod sx {
             ("2x2-excepted", vec![vec![Check(8), Check(0)], vec![Check(2), Check(8)]]),
             // the same page twice in one thread, a page with the opposite generichide verdict in the other
             ("2x2-cosmetic", vec![vec![Cosmetic, Cosmetic], vec![CosmeticGh, Cosmetic]]),
+            ("2x2-csp", vec![vec![Csp, Csp], vec![CspGh, Csp]]),
         ]
     }
 
@@ -552,7 +560,58 @@ mod sx {
         );
     }
 
+    /// Free-running supplement (NOT exhaustive, labelled so in the evidence): `threads` real threads
+    /// hammer one shared engine with every query kind for `millis` ms, no scheduler installed, every
+    /// answer compared with the single-thread answer. It exists for one reason: the schedule
+    /// explorer can only switch threads at the seam (the regex-manager lock and the points inside
+    /// it); state that is shared *outside* that lock (an atomic, a second mutex) has no seam
+    /// points, and a race on it is only reachable by real preemption. A mismatch here is a real
+    /// wrong answer; silence proves nothing.
+    pub fn stress(threads: usize, millis: u64) -> (u64, Option<String>) {
+        use std::sync::atomic::{AtomicBool, AtomicU64, Ordering};
+        let all: Vec<Q> = vec![Q::Check(0), Q::Check(2), Q::Check(6), Q::Check(8), Q::Csp, Q::CspGh, Q::CspGhP, Q::Cosmetic, Q::CosmeticGh, Q::Hidden];
+        // default discard policy: the queries are fast, which is what makes overlaps likely
+        let mut e = Engine::from_rules_parametrised(RULES, Default::default(), true, false);
+        e.use_tags(&["t"]);
+        let expect: Vec<String> = all.iter().map(|q| ask(&e, *q)).collect();
+        let stop = AtomicBool::new(false);
+        let rounds = AtomicU64::new(0);
+        let first_bad: Mutex<Option<String>> = Mutex::new(None);
+        let (e, all, expect, stop, rounds, first_bad) = (&e, &all, &expect, &stop, &rounds, &first_bad);
+        std::thread::scope(|sc| {
+            for t in 0..threads {
+                sc.spawn(move || {
+                    let mut k = t * 3;
+                    while !stop.load(Ordering::Relaxed) {
+                        // csp queries are taken twice as often (two pages alternate quickly)
+                        let i = if k % 2 == 0 { 4 + (k / 2) % 3 } else { k % all.len() };
+                        k += 1;
+                        let got = vh::util::catch(|| ask(e, all[i])).unwrap_or_else(|loc| format!("panic@{}", loc));
+                        rounds.fetch_add(1, Ordering::Relaxed);
+                        if got != expect[i] {
+                            let mut g = first_bad.lock().unwrap();
+                            if g.is_none() {
+                                *g = Some(format!("{:?}: concurrent answer {} but a single thread is told {}", all[i], got, expect[i]));
+                            }
+                            stop.store(true, Ordering::Relaxed);
+                        }
+                    }
+                });
+            }
+            let t0 = std::time::Instant::now();
+            while t0.elapsed().as_millis() < millis as u128 && !stop.load(Ordering::Relaxed) {
+                std::thread::sleep(Duration::from_millis(5));
+            }
+            stop.store(true, Ordering::Relaxed);
+        });
+        let bad = first_bad.lock().unwrap().clone();
+        (rounds.load(Ordering::Relaxed), bad)
+    }
+
     pub fn replay_case(case: &Value) -> Option<String> {
+        if case["kind"].as_str() == Some("stress") {
+            return stress(8, 10_000).1;
+        }
         install();
         let plans = plans();
         let pi = case["plan_idx"].as_u64().unwrap_or(0) as usize;
@@ -599,7 +658,7 @@ fn sync_main(tier: vh::Tier) -> i32 {
         let max_bound = match (tier, *name) {
             (vh::Tier::Quick, "3x2") => 1, // 3x2 with 2 preemptions is 10 660 schedules (~40 s): thorough only
             (vh::Tier::Quick, _) => 2,
-            (vh::Tier::Thorough, "2x2") | (vh::Tier::Thorough, "2x2-mixed") | (vh::Tier::Thorough, "2x2-rewrite") | (vh::Tier::Thorough, "2x2-excepted") | (vh::Tier::Thorough, "2x2-cosmetic") => 4,
+            (vh::Tier::Thorough, "2x2") | (vh::Tier::Thorough, "2x2-mixed") | (vh::Tier::Thorough, "2x2-rewrite") | (vh::Tier::Thorough, "2x2-excepted") | (vh::Tier::Thorough, "2x2-cosmetic") | (vh::Tier::Thorough, "2x2-csp") => 4,
             (vh::Tier::Thorough, _) => 3,
         };
         for b in 0..=max_bound {
@@ -712,6 +771,20 @@ fn sync_main(tier: vh::Tier) -> i32 {
     } else {
         ctx.note("cross-configuration half skipped: VERIF_C19_ANSWERS not set (run through /verif/run)");
     }
+    // free-running supplement: real preemption for state shared outside the seam (not exhaustive)
+    {
+        let (threads, millis) = match tier { vh::Tier::Quick => (8usize, 2500u64), vh::Tier::Thorough => (8, 30_000) };
+        let (rounds, bad) = sx::stress(threads, millis);
+        ctx.bound("free_running_stress", json!({"threads": threads, "millis": millis, "queries_answered": rounds, "exhaustive": false, "mismatch": bad.is_some()}));
+        ctx.note("free-running stress pass: sampling, not exhaustive; it covers races on state outside the regex-manager lock, which have no scheduling point in the seam");
+        // (its rounds are reported under bounds.free_running_stress only: the coverage counters of
+        // this evidence file count enumerated schedules and lists, never samples)
+        let mut l = Local::default();
+        if let Some(what) = bad {
+            l.mismatch(Mismatch { sig: "c19.stress.answer-differs-from-sequential".into(), what, case: json!({"kind":"stress"}), size: 1 });
+        }
+        ctx.merge(l);
+    }
     // Miri data-race pass (thorough only, explicitly not exhaustive)
     if tier == vh::Tier::Thorough {
         let t0 = std::time::Instant::now();
@@ -741,10 +814,11 @@ fn sync_main(tier: vh::Tier) -> i32 {
     }
     ctx.finish(
         "model_checking",
-        "(a) every interleaving of the thread plans (2x2, 3x1, 3x2, 2x3, 2x2-mixed, 2x2-rewrite, 2x2-excepted, 2x2-cosmetic: real OS threads on one shared real engine of the Sync build, regex-heavy rules, always-discard policy) with at most k preemptions, k = 0..bound, explored by stateless DFS; scheduling points at the real regex-manager lock (try_lock decides blocking) and inside the critical section; oracle per schedule: every answer equals the single-thread answer of a fresh engine, no panic, no deadlock, lock not poisoned; (b) one engine per list of C01's quick universe (+ cosmetic rules): all answers hashed by the single-thread build and recomputed by the thread-safe build; states = distinct traces + engines, transitions = scheduling points + queries; non-trivial = distinct traces",
+        "(a) every interleaving of the thread plans (2x2, 3x1, 3x2, 2x3, 2x2-mixed, 2x2-rewrite, 2x2-excepted, 2x2-cosmetic, 2x2-csp: real OS threads on one shared real engine of the Sync build, regex-heavy rules, always-discard policy) with at most k preemptions, k = 0..bound, explored by stateless DFS; scheduling points at the real regex-manager lock (try_lock decides blocking) and inside the critical section; oracle per schedule: every answer equals the single-thread answer of a fresh engine, no panic, no deadlock, lock not poisoned; (b) one engine per list of C01's quick universe (+ cosmetic rules): all answers hashed by the single-thread build and recomputed by the thread-safe build; states = distinct traces + engines, transitions = scheduling points + queries; non-trivial = distinct traces",
         &[
             "no preemption between two scheduling points: sound if no shared mutable state is touched outside the lock (checked separately, non-exhaustively, by a free-running Miri pass in the thorough tier)",
             "weak-memory behaviours below the mutex are not modelled",
+            "state shared outside the regex-manager lock has no scheduling point: races on it are only sampled (free-running stress pass, Miri pass), not enumerated",
         ],
     )
 }
